@@ -11,7 +11,8 @@ Everything is for a symbolic page size `c.P > 0` (the only hypothesis besides th
 in the statements).  Helper lemmas live in `DryocVerif/Proofs/Protected*.lean`.
 
 `Inv c s` (definition in `Proofs/ProtectedInv.lean`, unpacked by `inv_region`, `inv_plain`,
-`inv_disjoint`, `inv_unowned` below) says, for the kernel `s.m.k` and the live slots of `s`:
+`inv_guards` (guard pages of any slot owning a block, length 0 included), `inv_disjoint`,
+`inv_unowned` below) says, for the kernel `s.m.k` and the live slots of `s`:
   * blocks lie inside `[startPage, brk)`, pages `≥ brk` are untouched (`rw`, unlocked);
   * per live region: `len ≤ cap = buf.length`; fore guard page and the page at
     `ptr + pageRound cap` are `none`; every data page has the permission of the region's
@@ -149,6 +150,32 @@ theorem inv_plain (c : Cfg) (hP : 0 < c.P) (s : State) (h : Inv c s) (i : Nat) (
   · rw [ptr_pred_div hP]; exact (hb.fore hc).1
   · rw [ptr_aft_div hP]; exact (hb.aft hc).1
 
+/-- **the guard pages of a region of LENGTH 0.**  `inv_region` / `inv_plain` ask for `0 < len`; the
+guard pages, however, belong to the ALLOCATION: every live slot that owns a block (`0 < cap`) — in
+any type state, and also when it has been shrunk to length 0 by `resize(0, 0)`, which keeps the
+allocation — has `PROT_NONE`, unlocked pages before its data and at `ptr + pageRound cap`.  (A slot
+with `cap = 0` is an empty `Vec`: it owns no block and has no guard pages.) -/
+theorem inv_guards (c : Cfg) (hP : 0 < c.P) (s : State) (h : Inv c s) (i : Nat) (sl : Slot)
+    (hi : s.slots[i]? = some sl) (hg : sl.gone = false) (hc : 0 < sl.o.v.cap) :
+    (s.m.k.perm ((ptr c sl.o.v - 1) / c.P) = .none ∧
+      s.m.k.locked ((ptr c sl.o.v - 1) / c.P) = false) ∧
+    (s.m.k.perm ((ptr c sl.o.v + pageRound c.P sl.o.v.cap) / c.P) = .none ∧
+      s.m.k.locked ((ptr c sl.o.v + pageRound c.P sl.o.v.cap) / c.P) = false) := by
+  have hb := inv_block h hi hg
+  refine ⟨?_, ?_⟩
+  · rw [ptr_pred_div hP]; exact hb.fore hc
+  · rw [ptr_aft_div hP]; exact hb.aft hc
+
+/-- non-vacuity witness for `inv_guards` (the "length 0" rows): `new; resize:0` leaves a live slot
+of length 0 that still owns its 16-byte block (pages 1–3); both guards are still `PROT_NONE` -/
+example :
+    let c : Cfg := { P := 4096, isArr := false, n := 16 }
+    let s := runState c (State.init fun _ => true) [⟨.new, 0⟩, ⟨.resize 0, 0⟩]
+    (∃ sl, s.slots[0]? = some sl ∧ sl.gone = false ∧ sl.o.v.len = 0 ∧ 0 < sl.o.v.cap ∧
+      (ptr c sl.o.v - 1) / 4096 = 1 ∧ (ptr c sl.o.v + pageRound 4096 sl.o.v.cap) / 4096 = 3) ∧
+    (s.m.k.perm 1, s.m.k.perm 2, s.m.k.perm 3) = (.none, .rw, .none) := by
+  refine ⟨⟨_, rfl, ?_⟩, ?_⟩ <;> decide
+
 /-- allocations (guard pages included) of distinct live regions share no page -/
 theorem inv_disjoint (c : Cfg) (s : State) (h : Inv c s) (i j : Nat) (a b : Slot)
     (hi : s.slots[i]? = some a) (hj : s.slots[j]? = some b) (hij : i ≠ j)
@@ -263,7 +290,15 @@ theorem drop_restores_aux (c : Cfg) (hP : 0 < c.P) (oracle : Nat → Bool) (toks
 
 /-- `drop_restores` (repaired model, `c.undo = true`): for EVERY history — any oracle, refusals,
 kernel failures on `PROT_NONE` pages, panics — after all handles are dropped no page is locked and
-no page has altered rights; `lockedPages` (the harness' `lck=`) is 0. -/
+no page has altered rights; `lockedPages` (the harness' `lck=`) is 0.
+
+SCOPE of "every history": the only system call that can FAIL in the model is `mlock` (refused by the
+oracle, or failing in the kernel on `PROT_NONE` pages).  `munlock` and `mprotect` always succeed in
+the model (`dryocMunlock`, `dryocMprotect` return no status; `opUnlock`, `opProtect`, `opNa` always
+answer `ok`; `alloc` assumes its three `mprotect` calls, whose results the Rust swallows with
+`.ok()`, took effect), whereas the Rust has `dryoc_munlock(..)?` / `dryoc_mprotect_*(..)?` inside
+`swap_some_or_err`, and `Drop` only prints such an error.  A history in which `munlock(2)` or
+`mprotect(2)` fails is therefore NOT REPRESENTABLE, and this theorem says nothing about it. -/
 theorem drop_restores (c : Cfg) (hP : 0 < c.P) (hu : c.undo = true) (oracle : Nat → Bool)
     (toks : List Tok) :
     let e := finish c (runState c (State.init oracle) toks)
